@@ -211,3 +211,21 @@ pub proof fn wmc_neg_complement<T: Semiring>(p: BddPtr, w: W<T>, vs: Seq<u64>)
     zsum_const(k, T::one_s(), w, vs, env);
     lemma_bfs_neg(p, false, wmc_alg(w, T::one_s(), T::zero_s()));
 }
+
+/// COROLLARY (composition with the compilers): a diagram that is proved to denote a given Boolean function F and to decide no
+/// variable twice -- every result of `compile_cnf_topdown` (C06: `ptr_sem(r, env) == csem_of(formula, env)`, `decides_once(r)`) and,
+/// through `lemma_ordered_decides_once`, every ordered BDD (C01 / C05) -- has as its count the weighted sum over the MODELS OF F:
+/// compile-then-count is weighted model counting of the formula
+pub proof fn wmc_of_function<T: Semiring>(p: BddPtr, f: spec_fn(Env) -> bool, w: W<T>, vs: Seq<u64>, env: Env)
+    requires
+        csr::<T>(), wv(w), distinct(vs), decides_once(p),
+        forall|x: VarLabel| mentions(p, x) ==> vs.contains(x.0),
+        forall|i: int| 0 <= i < vs.len() ==> normalised(w, #[trigger] vs[i]),
+        forall|e: Env| ptr_sem(p, e) == #[trigger] f(e),
+    ensures
+        wmc_spec(p, false, w) == zsum(|e: Env| if f(e) { T::one_s() } else { T::zero_s() }, w, vs, env),
+{
+    wmc_theorem(p, false, w, vs, env);
+    let g: GF<T> = |e: Env| if f(e) { T::one_s() } else { T::zero_s() };
+    assert(indf::<T>(p, false) =~= g);
+}
